@@ -179,13 +179,13 @@ def corr_map(ck, n, thorough=False):
 
 def run(ck):
     ck.prove([], TARGETS, theorems())
-    nh, steps, nm = (120, 150, 40) if ck.tier == 'quick' else (3000, 400, 600)
+    nh, steps, nm = (200, 150, 160) if ck.tier == 'quick' else (3000, 400, 2500)
     corr_heap(ck, nh, steps)
     corr_map(ck, nm, ck.tier == 'thorough')
     if ck.broken and not ck.violations:
         corr_heap(ck, nh * 4, steps); corr_map(ck, nm * 4, ck.tier == 'thorough')
     ck.assumptions += ['free() only of live chunk starts, sizes > 0 (Python raises KeyError otherwise)',
-                       'the link from the Boolean map certificate to the hypotheses of mem_refines is not proved yet (partial)']
+                       'the map certificate MapIn.check is sound (map_certificate_sound, kernel-checked); that the real map passes it is evaluated per generated instance, not proved for all circuits']
     return ck.finish(RULE)
 
 
